@@ -20,9 +20,9 @@ Proof.
       apply N.div_lt_upper_bound; lia.
 Qed.
 
-Lemma dec_ctl_enc : forall s t, s < LIM -> t < LIM -> dec_ctl (le_enc 4 s ++ le_enc 4 t) = (s, t).
+Lemma dec_ctl_enc : forall s t, s < W32 -> t < W32 -> dec_ctl (le_enc 4 s ++ le_enc 4 t) = (s, t).
 Proof.
-  intros s t Hs Ht. assert (LIM = 2147483648) by reflexivity. unfold dec_ctl.
+  intros s t Hs Ht. assert (W32 = 4294967296) by reflexivity. unfold dec_ctl.
   rewrite firstn_app, le_enc_length, Nat.sub_diag, firstn_O, app_nil_r.
   rewrite (firstn_all2 (le_enc 4 s)) by (rewrite le_enc_length; lia).
   rewrite skipn_app, le_enc_length, Nat.sub_diag, skipn_O.
